@@ -241,6 +241,10 @@ def run_midstream(case, st):
                 st.feature('midstream-change', 'to-%d' % code)
             if not done_r:
                 t = ref.next()
+                # plasTeX never delivers two paragraph tokens in a row (a normal form the comparison below applies anyway); the
+                # reference must not fall a token behind because of it, or later changes would reach the two lexers at different places
+                while t == ('cs', 'par') and exp and exp[-1] == ('cs', 'par'):
+                    t = ref.next()
                 if t is None:
                     done_r = True
                 else:
